@@ -35,6 +35,12 @@ oracle   : (no Lean)
            foreign module   - a recent module file at the module path that belongs to another template file or
                               carries another magic number (second regeneration path);
            same URI in two lookups (module-id collision); RichTraceback built inside a template.
+           edit + recompile  - (always run, fixed) EDIT_WITNESSES x EDIT_ROUTES: a module-directory / module_filename template
+                              raises and a traceback is built, the FILE is rewritten so that its lines shift, it is
+                              recompiled in the same process (lookup filesystem check / new Template) and the next
+                              traceback (records, .lineno/.source, text / html error template, format_exceptions)
+                              must name the lines of the file as it is now (seeded change C12l: line map cached per
+                              module path and never dropped).
 """
 from __future__ import annotations
 
@@ -2392,6 +2398,140 @@ def oracle_inside_template(ctx):
 
 
 # --------------------------------------------------------------------------------------------------
+# oracle: the template FILE is edited (lines shift) and recompiled in the same process
+
+EDIT_RAISE = ("${1/0}", "raise ValueError('boom')")      # the innermost frame's line holds one of these
+EDIT_CALL = "${f()}"                                        # an outer frame's line (call of a def that raises)
+
+EDIT_WITNESSES = [
+    # name, versions of the file in the order they are written (each has exactly one raising line; a version that
+    # holds EDIT_CALL has two template frames: the call line, then the raising line)
+    ("code-block-pushed-down", [
+        "line one\n<%\n    raise ValueError('boom')\n%>\ntail\n",
+        "line one\n## added\n## added\n## added\nmore text\n<%\n    x = 1\n    raise ValueError('boom')\n%>\ntail\n"]),
+    ("expr-down-up-and-back", [
+        "a\n${1/0}\nz\n",
+        "a\nb one\nb two\nb three, some longer filler text\n% if True:\n${1/0}\n% endif\nz\n",
+        "${1/0}\nz\n",
+        "a\n${1/0}\nz\n"]),
+    # (no <%def>/<%block> call chains here: their stub / call-site frames are the known findings F9a/F9b, which the
+    #  traceback oracle reports on their own; a stale line map is visible on a single frame)
+    ("lines-removed-then-multiline-text-inserted", [
+        "h1\nh2\nh3\nh4\nh5\n% for i in range(2):\n  ${i}\n% endfor\n<%\n    y = 2\n    raise ValueError('boom')\n%>\n",
+        "<%\n    raise ValueError('boom')\n%>\n",
+        "<%text>\nraw one\nraw two\n</%text>\n<%doc>\nnote\n</%doc>\nx ${'ok'} y\n% if 1:\n<%\n"
+        "    raise ValueError('boom')\n%>\n% endif\n"]),
+]
+EDIT_ROUTES = ["lookup-fscheck", "template-moddir", "template-modfile"]
+
+
+def edit_expected(text):
+    """[(line number, line text)] of the template frames, outermost first - read off the text itself"""
+    lines = text.split("\n")
+    inner = [i + 1 for i, l in enumerate(lines) if any(m in l for m in EDIT_RAISE)]
+    outer = [i + 1 for i, l in enumerate(lines) if EDIT_CALL in l]
+    assert len(inner) == 1 and len(outer) <= 1, text
+    return [(n, lines[n - 1]) for n in outer + inner]
+
+
+def run_edit_sequence(env, versions, route, upto=None):
+    """write versions[0], build a traceback, overwrite the file with versions[1], recompile in this process, build a
+    traceback, ...  Returns [(step, site, detail)] - empty when every view of every step reports the lines of the
+    file as it is at that step"""
+    import time
+    from mako import exceptions
+    from mako.template import Template
+    from mako.lookup import TemplateLookup
+    env.n += 1
+    d = os.path.join(env.root, "ed%d" % env.n)
+    os.makedirs(d)
+    path = os.path.join(d, "page.html")
+    mdir = os.path.join(d, "mods")
+    kw = {"module_filename": os.path.join(d, "mf", "page_mod.py")} if route == "template-modfile" else \
+         {"module_directory": mdir}
+    if route == "template-modfile":
+        os.makedirs(os.path.join(d, "mf"))
+    lk = TemplateLookup(directories=[d], module_directory=mdir, filesystem_checks=True)
+    now = time.time()
+    problems = []
+    keep = []
+    for step, text in enumerate(versions if upto is None else versions[:upto + 1]):
+        with open(path, "w", encoding="utf-8") as f:
+            f.write(text)
+        # step 0 older than anything written now; every edit newer than the module file generated before it
+        stamp = now - 100 if step == 0 else now + 100 * step
+        os.utime(path, (stamp, stamp))
+        want = [(path, n, l) for n, l in edit_expected(text)]
+        t = lk.get_template("page.html") if route == "lookup-fscheck" else Template(filename=path, **kw)
+        keep.append(t)
+        try:
+            t.render_unicode()
+            problems.append((step, "harness:edit-recompile:no-exception", {}))
+            continue
+        except (ZeroDivisionError, ValueError):
+            try:
+                rt = exceptions.RichTraceback()
+                text_out = exceptions.text_error_template().render_unicode()
+                html_out = exceptions.html_error_template().render_unicode(full=False, css=False)
+            except Exception as e:      # e.g. a line map that does not belong to the module that ran
+                problems.append((step, "edit-recompile:traceback-construction-raised",
+                                 {"error": repr(e)[:200], "expected": want}))
+                continue
+        got = [(r[4], r[5], r[6]) for r in rt.records if r[4] is not None]
+        if got != want:
+            problems.append((step, "edit-recompile:records", {"expected": want, "got": got}))
+        elif any(r[7] != text for r in rt.records if r[4] is not None):
+            problems.append((step, "edit-recompile:record-source-stale", {"expected_source": text}))
+        if rt.lineno != want[-1][1] or rt.source != text:
+            problems.append((step, "edit-recompile:lineno", {"expected_line": want[-1][1], "got_line": rt.lineno,
+                                                              "source_is_current_file": rt.source == text}))
+        wl = [(a, b) for a, b, c in want]
+        tv = [(x[0], x[1]) for x in parse_text_tb(text_out) if x[0] == path]
+        if tv != wl:
+            problems.append((step, "edit-recompile:text_error_template", {"expected": wl, "got": tv}))
+        hv = [(x[0], x[1]) for x in parse_html_tb(html_out) if x[0] == path]
+        if hv != wl:
+            problems.append((step, "edit-recompile:html_error_template", {"expected": wl, "got": hv}))
+        t2 = Template(filename=path, format_exceptions=True, **kw)
+        try:
+            out = t2.render_unicode()
+        except Exception as e:
+            problems.append((step, "edit-recompile:format_exceptions-raised", {"error": repr(e)[:200]}))
+        else:
+            fv = [(x[0], x[1]) for x in parse_html_tb(out) if x[0] == path]
+            if fv != wl:
+                problems.append((step, "edit-recompile:format_exceptions", {"expected": wl, "got": fv}))
+    del keep
+    return problems
+
+
+def oracle_edit_recompile(ctx, env):
+    """C12 after an edit: a module-directory / module_filename template raises and a traceback is built; the file is
+    rewritten so that its lines shift; it is recompiled in the same process (TemplateLookup with filesystem_checks,
+    or a new Template on the same module path); the next traceback must name the lines of the file as it is NOW.
+    Expected lines are read off the text written (edit_expected), not taken from mako."""
+    st = ctx.stream("oracle.traceback_after_edit", "oracle")
+    for name, versions in EDIT_WITNESSES:
+        for route in EDIT_ROUTES:
+            st["cases"] += len(versions)
+            probs = run_edit_sequence(env, versions, route)
+            ctx.nontriv(("edit", name, route))
+            ctx.branch("oracle:edit-recompile:%s:%s" % (route, "ok" if not probs else "wrong"))
+            for step, site, detail in probs:
+                ctx.branch("violation-site:" + site)
+            if probs:
+                step, site, detail = probs[0]       # earliest step, first view
+                if site.startswith("harness:"):
+                    ctx.broke("C12 edit-recompile witness did not raise", "%s %s step %d" % (name, route, step))
+                    continue
+                ctx.violation(site, {"input": versions[step], "previous_versions": versions[:step], "route": route,
+                                     "witness": name, "edit_step": step,
+                                     "expected_lines": [n for n, _ in edit_expected(versions[step])]},
+                              dict(detail, all_failing_views=sorted({s for k, s, _ in probs if k == step})),
+                              "oracle.traceback_after_edit")
+
+
+# --------------------------------------------------------------------------------------------------
 
 def run(ctx):
     root = tempfile.mkdtemp(prefix="c12_")
@@ -2419,7 +2559,10 @@ def run(ctx):
                         try:
                             oracle_collision(ctx, env)
                         finally:
-                            oracle_inside_template(ctx)
+                            try:
+                                oracle_inside_template(ctx)
+                            finally:
+                                oracle_edit_recompile(ctx, env)
     finally:
         shutil.rmtree(root, ignore_errors=True)
         # modules imported from the scratch module directories
@@ -2499,6 +2642,13 @@ def replay(ctx, data):
             for v in c2.violations:
                 print("  ", v["detail"])
             return not c2.violations
+        if "edit_step" in case:
+            vs = list(case.get("previous_versions") or []) + [case["input"]]
+            probs = run_edit_sequence(env, vs, case.get("route", "lookup-fscheck"))
+            for step, site, detail in probs:
+                print("  step %d (file version %d): %s %s" % (step, step + 1, site, json.dumps(detail)[:600]))
+            want = data.get("site")
+            return not [p for p in probs if (p[1] == want if want else True)]
         if "other_template_same_uri" in case:
             c2 = type(ctx)(ctx.pid, "quick", 0)
             oracle_collision(c2, env)
